@@ -334,6 +334,9 @@ def gen(tier, rng, scale):
                 op = ["append", rng.range(1, 9)]
             elif q < 92:
                 op = ["zero", rng.below(1 << 16), rng.range(1, 64)]
+            elif sub.startswith("debuglink") and q < 95:
+                # companions above 1 MiB: the .gnu_debuglink CRC is computed chunk by chunk
+                op = ["padmatch", rng.choice([1, 2]), rng.choice([1, 4096, 70000])] if rng.chance(1, 2) else ["prefixmatch", rng.choice([1, 2]), rng.choice([1, 4096, 70000]), rng.below(1 << 16)]
             else:
                 op = ["swap", rng.choice(["other/ls-linux/260a3e6e46db57abf718f6a3562c6eedccf269.debug", "other/simple-example/out/regular-debuglink/main.dbg",
                                           "other/simple-example/out/dwp-debuglink/main.dbg", "other/ls-linux/coreutils.debug", "other/example-linux"])]
@@ -352,10 +355,78 @@ COMP = {"debuglink": ("other/simple-example/out/regular-debuglink/main", "-", "o
         "sup": ("other/ls-linux/ls", "other/ls-linux/260a3e6e46db57abf718f6a3562c6eedccf269.debug", "other/ls-linux/coreutils.debug")}
 
 
-def _corrupt(data, op):
+def _crc_table():
+    t = []
+    for n in range(256):
+        c = n
+        for _ in range(8):
+            c = (c >> 1) ^ 0xEDB88320 if c & 1 else c >> 1
+        t.append(c)
+    return t
+
+
+_CRCT = _crc_table()
+
+
+def _forge4(prefix, want):
+    """four bytes X with crc32(prefix + X) == want (the CRC-32 of zlib / .gnu_debuglink)"""
+    import zlib
+    reg = zlib.crc32(prefix) ^ 0xFFFFFFFF               # register after the prefix
+    target = want ^ 0xFFFFFFFF                          # register wanted after four more bytes
+    # walk the table backwards: the top byte of each register identifies the table entry used
+    idx = []
+    t = target
+    for _ in range(4):
+        k = next(i for i in range(256) if _CRCT[i] >> 24 == t >> 24)
+        idx.append(k)
+        t = ((t ^ _CRCT[k]) << 8) & 0xFFFFFFFF
+    idx.reverse()
+    out = bytearray()
+    for k in idx:
+        out.append((reg ^ k) & 0xFF)
+        reg = (reg >> 8) ^ _CRCT[k]
+    assert zlib.crc32(prefix + bytes(out)) == want
+    return bytes(out)
+
+
+def _debuglink_crc(main_path):
+    """the CRC stored in the .gnu_debuglink section of an ELF file (last four bytes of the section)"""
+    import struct
+    d = open(main_path, "rb").read()
+    shoff, = struct.unpack_from("<Q", d, 0x28)
+    shentsize, shnum, shstrndx = struct.unpack_from("<HHH", d, 0x3A)
+    so = shoff + shstrndx * shentsize
+    stroff, = struct.unpack_from("<Q", d, so + 0x18)
+    for i in range(shnum):
+        o = shoff + i * shentsize
+        nm, = struct.unpack_from("<I", d, o)
+        off, size = struct.unpack_from("<QQ", d, o + 0x18)
+        name = d[stroff + nm:d.index(b"\0", stroff + nm)]
+        if name == b".gnu_debuglink":
+            return struct.unpack_from("<I", d, off + size - 4)[0]
+    return None
+
+
+MIB = 1 << 20
+
+
+def _corrupt(data, op, main_path=None):
     data = bytearray(data)
     if op[0] == "none":
         pass
+    elif op[0] == "padmatch":
+        # the genuine debug file, padded beyond one or two MiB (the CRC is computed in 1 MiB chunks) and closed with four bytes that make the CRC
+        # of the WHOLE file the expected one: it has to be accepted
+        want = _debuglink_crc(main_path)
+        body = bytes(data) + bytes(op[1] * MIB + op[2] - len(data) - 4)
+        data = bytearray(body + _forge4(body, want))
+    elif op[0] == "prefixmatch":
+        # another build's debug file (one byte of the genuine one changed), padded to a whole number of MiB whose CRC is the expected one, and
+        # more bytes after that: the CRC of the whole file is another one, it has to be refused
+        want = _debuglink_crc(main_path)
+        data[op[3] % len(data)] ^= 0x40
+        body = bytes(data) + bytes(op[1] * MIB - len(data) - 4)
+        data = bytearray(body + _forge4(body, want) + bytes([0xA5]) * op[2])
     elif op[0] == "xor":
         if data:
             data[op[1] % len(data)] ^= op[2]
@@ -408,7 +479,7 @@ def evaluate(cases):
             else:
                 main, first, comp = COMP[c["sub"]]
                 op = c["items"][0] if c["items"] else ["none"]
-                data = _corrupt(open(os.path.join(FX, comp), "rb").read(), op)
+                data = _corrupt(open(os.path.join(FX, comp), "rb").read(), op, os.path.join(FX, main))
                 p = os.path.join(sc.dir, "comp%d" % i)
                 open(p, "wb").write(data)
                 pristine = data == open(os.path.join(FX, comp), "rb").read()
